@@ -39,7 +39,8 @@ COMPONENTS = {
     "real": ["NoisyMPSBackendImpl.sweep_complete/timestep_complete/do_random_quantum_jump/set_jump_threshold", "MPSBackendImpl.progress/fill_results", "BrentsRootFinder", "MPSBackend.run/_run", "pulser sampling", "mode real: all TDVP numerics"],
     "stubbed": ["clock", "uuid", "RNG seeding", "mode stub: MPSBackendImpl._evolve (no-op) and MPS.norm (adversary)", "buggify: random.uniform inside set_jump_threshold returns a value within 1e-12 of 0 or of the bound in a random subset of runs"],
 }
-PROBES = ["jump", "two_jumps_in_one_step", "three_plus_jumps_in_one_step", "jump_within_1ns_of_step_boundary", "step_shorter_than_tolerance", "exact_tie_norm_equals_threshold", "inconsistent_revisit", "no_jump_run", "buggified_threshold", "search_longer_than_5_sweeps", "stub_runs", "real_runs"]
+AUTOSAVE_DT = 11.0
+PROBES = ["jump", "two_jumps_in_one_step", "three_plus_jumps_in_one_step", "jump_within_1ns_of_step_boundary", "step_shorter_than_tolerance", "exact_tie_norm_equals_threshold", "inconsistent_revisit", "no_jump_run", "buggified_threshold", "search_longer_than_5_sweeps", "stub_runs", "real_runs", "resume_during_active_search", "resume_between_searches", "second_crash"]
 ASSUMPTIONS = [
     "stub mode: the adversary spends at most 8 crossings per step and 3 per step on average, so termination is a fair demand",
     "per-search liveness budget 2(N+2)^2+10 sweeps with N=ceil(log2(step/1ns)) (Brent's bound is O(N^2)); the property says 'terminates', not 'terminates fast'",
@@ -132,6 +133,14 @@ class NormScript:
         self.seg = {"shape": shape, "cross": cross, "where": where, "frac": tp.float(0.02, 0.98, "frac"), "k": tp.choice([1.0, 3.0, 0.3], "k"), "tc": None}
         self.shape_log.append(shape if cross else "never")
 
+    def snapshot(self) -> dict:
+        """The adversary's state at the instant an autosave completes: a crash rolls the environment back to it."""
+        return {"t0": self.t0, "queries": self.queries, "cis": dict(self.crossings_in_step), "tot": self.total_crossings, "seg": dict(self.seg), "nlog": len(self.shape_log)}
+
+    def restore(self, d: dict) -> None:
+        self.t0, self.queries, self.crossings_in_step, self.total_crossings, self.seg = d["t0"], d["queries"], dict(d["cis"]), d["tot"], dict(d["seg"])
+        self.impl = None  # the resumed incarnation has a new solver object
+
     def _tc(self) -> float | None:
         """Absolute time of the scripted crossing for the current segment (lazily fixed, because
         it depends on the step the segment starts in)."""
@@ -217,52 +226,138 @@ class NormScript:
         return min(max(s, 0.0), 1.0)
 
 
-def run_stub(tape: Tape, case: dict, world: World, seeds: tuple) -> tuple[M.Outcome, JumpTrace, NormScript]:
+class SaveLog:
+    """Every autosave file an incarnation completed, with the harness-side state at that instant (length of the trace,
+    RNG state, the adversary's state): what a crash right after it leaves behind, and what the environment rolls back to."""
+
+    def __init__(self, trace: JumpTrace, script: "NormScript | None" = None):
+        self.trace = trace
+        self.script = script
+        self.items: list[dict] = []
+
+    def attach(self, inc: Any, probe: M.ProgressProbe) -> None:
+        from ..seams import rng_snapshot
+
+        prev = inc.disk.on_file_completed
+
+        def done(name: str, data: bytes) -> None:
+            if prev is not None:
+                prev(name, data)
+            finder = next((e[1]["finder"] for e in reversed(self.trace.ev) if "finder" in e[1]), False)
+            self.items.append({"data": data, "cut": len(self.trace.ev), "pcall": probe.calls, "finder": bool(finder), "rng": rng_snapshot(), "script": self.script.snapshot() if self.script is not None else None})
+
+        inc.disk.on_file_completed = done
+
+
+def install_stub(inc: Any, probe: M.ProgressProbe, script: NormScript) -> None:
     import emu_mps.mps as mps_mod
     import emu_mps.mps_backend_impl as impl_mod
+    from ..seams import wrap_method
 
-    script = NormScript(tape)
-    trace = JumpTrace()
     MPS = mps_mod.MPS
     base = impl_mod.MPSBackendImpl
     noisy = impl_mod.NoisyMPSBackendImpl
     if "_evolve" not in base.__dict__ or "norm" not in MPS.__dict__:
         raise HarnessError("stub mode needs MPSBackendImpl._evolve and MPS.norm")
 
+    def fake_evolve(self: Any, *indices: int, dt: float, orth_center_right: Any = None) -> None:
+        if len(indices) == 2:
+            l, r = indices
+            self.state.orthogonality_center = r if orth_center_right else l
+
+    def fake_norm(self: Any) -> torch.Tensor:
+        return torch.tensor(math.sqrt(script.value()), dtype=torch.float64)
+
+    inc.rb.setattr(base, "_evolve", fake_evolve)
+    inc.rb.setattr(MPS, "norm", fake_norm)
+
+    def grab(impl: Any) -> None:
+        if script.impl is None and isinstance(impl, noisy):
+            script.impl = impl
+
+    # the solver object becomes known at its first unit of work / first fill_results (t=0); a jump starts a new segment
+    def before_jump(impl: Any, *a: Any, **k: Any) -> None:
+        script.impl = impl
+        script.new_segment(float(impl.current_time))
+
+    def before_fill(impl: Any, *a: Any, **k: Any) -> None:
+        grab(impl)
+
+    wrap_method(inc.rb, noisy, "do_random_quantum_jump", before=before_jump)
+    wrap_method(inc.rb, base, "fill_results", before=before_fill)
+    probe.on_before = grab
+
+
+def make_buggify(bug: str, forced: list) -> Any:
+    def install(inc: Any) -> None:
+        if bug == "none":
+            return
+        import emu_mps.mps_backend_impl as impl_mod
+
+        class _Rand:
+            """`random` as seen by mps_backend_impl: uniform() is buggified a bounded number of times."""
+
+            def __getattr__(self, name: str) -> Any:
+                return getattr(_random, name)
+
+            def uniform(self, a: float, b: float) -> float:
+                v = _random.uniform(a, b)
+                if forced[0] < 6:
+                    forced[0] += 1
+                    hi = bug == "near_bound" or (bug == "alternate" and forced[0] % 2 == 1)
+                    return b - 1e-12 * max(b, 1e-300) if hi else a + 1e-12
+                return v
+
+        if getattr(impl_mod, "random", None) is _random:
+            inc.rb.set(impl_mod.__dict__, "random", _Rand())
+
+    return install
+
+
+def run_forward(tape: Tape, case: dict, world: World, seeds: tuple, stub: bool, autosave: bool) -> tuple[M.Outcome, JumpTrace, Any, SaveLog, Any]:
+    """The uninterrupted run (mode stub: adversarial norm; mode real: real numerics, buggified thresholds)."""
+    trace = JumpTrace()
+    script = NormScript(tape) if stub else None
+    bug = "none" if stub else tape.choice(["none", "none", "near_bound", "near_zero", "alternate"], "buggify")
+    forced = [0]
+    bugg = make_buggify(bug, forced)
+    saves = SaveLog(trace, script)
+
     def setup(inc: Any, probe: M.ProgressProbe) -> None:
         trace.install(inc.rb)
+        if stub:
+            install_stub(inc, probe, script)
+        else:
+            bugg(inc)
+        if autosave:
+            saves.attach(inc, probe)
 
-        def fake_evolve(self: Any, *indices: int, dt: float, orth_center_right: Any = None) -> None:
-            if len(indices) == 2:
-                l, r = indices
-                self.state.orthogonality_center = r if orth_center_right else l
+    # with autosave on, the clock makes every save_simulation() call write: each unit of work ends with a snapshot
+    world.clock.policy = (lambda n: AUTOSAVE_DT + 1.0) if autosave else (lambda n: 0.002)
+    fn = M.mps_run_fn(_seq(case), case["scn"], case["cfg"], autosave_dt=AUTOSAVE_DT) if autosave else M.mps_run_fn(_seq(case), case["scn"], case["cfg"])
+    out = M.run_incarnation(world, fn, seeds=seeds, setup=setup, budget=case["budget"])
+    return out, trace, script, saves, (forced, bugg)
 
-        def fake_norm(self: Any) -> torch.Tensor:
-            return torch.tensor(math.sqrt(script.value()), dtype=torch.float64)
 
-        inc.rb.setattr(base, "_evolve", fake_evolve)
-        inc.rb.setattr(MPS, "norm", fake_norm)
+def run_resumed(tape: Tape, case: dict, world: World, item: dict, stub: bool, script: Any, bugg: Any, coupled: bool) -> tuple[M.Outcome, JumpTrace, SaveLog]:
+    """The process died right after the autosave `item` completed; a new incarnation resumes from that file."""
+    trace = JumpTrace()
+    saves = SaveLog(trace, script)
+    if stub:
+        script.restore(item["script"])
 
-        def grab(impl: Any) -> None:
-            if script.impl is None and isinstance(impl, noisy):
-                script.impl = impl
+    def setup(inc: Any, probe: M.ProgressProbe) -> None:
+        trace.install(inc.rb)
+        if stub:
+            install_stub(inc, probe, script)
+        else:
+            bugg(inc)
+        saves.attach(inc, probe)
 
-        # the impl object becomes known at its first fill_results (t=0); hook into the jump to start a new segment
-        from ..seams import wrap_method
-
-        def before_jump(impl: Any, *a: Any, **k: Any) -> None:
-            script.impl = impl
-            script.new_segment(float(impl.current_time))
-
-        def before_fill(impl: Any, *a: Any, **k: Any) -> None:
-            grab(impl)
-
-        wrap_method(inc.rb, noisy, "do_random_quantum_jump", before=before_jump)
-        wrap_method(inc.rb, base, "fill_results", before=before_fill)
-
-    world.clock.policy = lambda n: 0.002
-    out = M.run_incarnation(world, M.mps_run_fn(_seq(case), case["scn"], case["cfg"]), seeds=seeds, setup=setup, budget=case["budget"])
-    return out, trace, script
+    world.clock.policy = lambda n: AUTOSAVE_DT + 1.0
+    fresh = (tape.seed32("rseed_py"), tape.seed32("rseed_np"), tape.seed32("rseed_torch"))
+    out = M.run_incarnation(world, M.mps_resume_fn("resume_me.dat", tape.bool(0.5, "as_path")), files={"resume_me.dat": item["data"]}, rng_state=item["rng"] if coupled else None, seeds=None if coupled else fresh, setup=setup, budget=case["budget"])
+    return out, trace, saves
 
 
 _SEQ_CACHE: dict = {}
@@ -270,38 +365,6 @@ _SEQ_CACHE: dict = {}
 
 def _seq(case: dict) -> Any:
     return S.build_sequence(case["scn"])
-
-
-def run_real(tape: Tape, case: dict, world: World, seeds: tuple) -> tuple[M.Outcome, JumpTrace, int]:
-    trace = JumpTrace()
-    bug = tape.choice(["none", "none", "near_bound", "near_zero", "alternate"], "buggify")
-    forced = [0]
-
-    def setup(inc: Any, probe: M.ProgressProbe) -> None:
-        trace.install(inc.rb)
-        if bug != "none":
-            import emu_mps.mps_backend_impl as impl_mod
-
-            class _Rand:
-                """`random` as seen by mps_backend_impl: uniform() is buggified a bounded number of times."""
-
-                def __getattr__(self, name: str) -> Any:
-                    return getattr(_random, name)
-
-                def uniform(self, a: float, b: float) -> float:
-                    v = _random.uniform(a, b)
-                    if forced[0] < 6:
-                        forced[0] += 1
-                        hi = bug == "near_bound" or (bug == "alternate" and forced[0] % 2 == 1)
-                        return b - 1e-12 * max(b, 1e-300) if hi else a + 1e-12
-                    return v
-
-            if getattr(impl_mod, "random", None) is _random:
-                inc.rb.set(impl_mod.__dict__, "random", _Rand())
-
-    world.clock.policy = lambda n: 0.002
-    out = M.run_incarnation(world, M.mps_run_fn(_seq(case), case["scn"], case["cfg"]), seeds=seeds, setup=setup, budget=case["budget"])
-    return out, trace, forced[0]
 
 
 # --------------------------------------------------------------------------------------
@@ -321,20 +384,19 @@ def one_run(tape: Tape, stub: bool) -> dict:
     V: list[dict] = []
     probes: dict[str, int] = {"stub_runs" if stub else "real_runs": 1}
     desc: dict[str, Any] = {"mode": "stub" if stub else "real", "atoms": n, "T": T, "dt": dt, "steps": n_steps, "noise": case["cfg"]["noise"], "step_kind": case["step_kind"]}
+    # crash + resume: the stepping state machine (step index, times, active jump search, threshold, gap) must survive
+    # an interruption at any unit of work; the history judged is the dead incarnation's up to its last completed
+    # autosave followed by the resumed incarnation's
+    with_resume = tape.bool(0.3, "with_resume")
+    desc["crash_resume"] = with_resume
     try:
-        try:
-            if stub:
-                out, trace, script = run_stub(tape, case, world, seeds)
-                desc["adversary"] = {"shapes": script.shape_log[:10], "inconsistent": script.inconsistent, "crossings": script.total_crossings}
-                if script.inconsistent:
-                    probes["inconsistent_revisit"] = 1
-            else:
-                out, trace, forced = run_real(tape, case, world, seeds)
-                if forced:
-                    probes["buggified_threshold"] = 1
-        except BudgetExceeded as e:
-            V.append({"clause": "C18.I7-no-termination", "site": "progress", "msg": f"run did not finish within the liveness budget: {e} ({desc})"})
-            return _pack(V, desc, probes, world, case, None, stub)
+        out, trace, script, saves, (forced, bugg) = run_forward(tape, case, world, seeds, stub, with_resume)
+        if stub:
+            desc["adversary"] = {"shapes": script.shape_log[:10], "inconsistent": script.inconsistent, "crossings": script.total_crossings}
+            if script.inconsistent:
+                probes["inconsistent_revisit"] = 1
+        elif forced[0]:
+            probes["buggified_threshold"] = 1
         if isinstance(out.error, BudgetExceeded):
             V.append({"clause": "C18.I7-no-termination", "site": "progress", "msg": f"run did not finish within the liveness budget: {out.error} ({desc})"})
             return _pack(V, desc, probes, world, case, None, stub)
@@ -351,40 +413,86 @@ def one_run(tape: Tape, stub: bool) -> dict:
         V.extend(tv)
         desc["stats"] = stats
         desc["progress_calls"] = out.progress_calls
-        if stats["jumps"]:
-            probes["jump"] = stats["jumps"]
-        else:
-            probes["no_jump_run"] = 1
-        if stats["max_jumps_in_step"] == 2:
-            probes["two_jumps_in_one_step"] = 1
-        if stats["max_jumps_in_step"] >= 3:
-            probes["three_plus_jumps_in_one_step"] = 1
-        if stats["jump_near_boundary"]:
-            probes["jump_within_1ns_of_step_boundary"] = stats["jump_near_boundary"]
-        if stats["tiny_step"]:
-            probes["step_shorter_than_tolerance"] = 1
-        if stats["tie"]:
-            probes["exact_tie_norm_equals_threshold"] = stats["tie"]
-        if stats["max_search_iters"] > 5:
-            probes["search_longer_than_5_sweeps"] = 1
-        # the step calendar the solver followed must be the reference calendar
-        if trace.target_times is not None:
-            tt = trace.target_times
-            if len(tt) != len(cal) or any(abs(a - b) > 1e-6 for a, b in zip(tt, cal)):
-                pass  # calendar mismatches belong to C21/C14; not judged here
-        # I6 through the public results
-        if finished and out.results is not None:
-            req = CAL.requested_times(case["cfg"]["observables"], case["cfg"]["default_times"])
-            for tag, times in req.items():
-                rec = [x[0] for x in out.results["tags"].get(tag, [])]
-                from ._cal import match_times_clustered
-
-                m = match_times_clustered(rec, times)
-                if m is not None:
-                    V.append({"clause": "C18.I6-observable-times", "site": tag, "msg": f"{tag}: {m} :: {desc}"})
+        V.extend(_public_times(case, out, finished, desc, ""))
+        _stat_probes(stats, probes)
+        # ---- crash right after a chosen autosave, resume, possibly crash and resume once more
+        if with_resume and finished and saves.items and not V:
+            prefix = list(trace.ev)
+            cur_saves, cur_trace_ev = saves, trace.ev
+            depth = 0
+            chain: list[dict] = []
+            while cur_saves.items and depth < 2:
+                items = cur_saves.items
+                active = [i for i, it in enumerate(items) if it["finder"]]
+                if active and tape.bool(0.7, "crash_in_search"):
+                    k = active[tape.int(0, len(active) - 1, "crash_at_active")]
+                else:
+                    k = tape.int(0, len(items) - 1, "crash_at")
+                it = items[k]
+                coupled = tape.bool(0.5, "rng_coupled")
+                prefix = (prefix[: it["cut"]] if depth == 0 else prefix + cur_trace_ev[: it["cut"]])
+                out_r, trace_r, saves_r = run_resumed(tape, case, world, it, stub, script, bugg, coupled)
+                depth += 1
+                chain.append({"after_progress_call": it["pcall"], "search_active": it["finder"], "rng_coupled": coupled})
+                probes["resume_during_active_search" if it["finder"] else "resume_between_searches"] = probes.get("resume_during_active_search" if it["finder"] else "resume_between_searches", 0) + 1
+                if depth == 2:
+                    probes["second_crash"] = 1
+                desc["crash_chain"] = chain
+                if isinstance(out_r.error, BudgetExceeded):
+                    V.append({"clause": "C18.I7-no-termination", "site": "progress@resume", "msg": f"the resumed run did not finish within the liveness budget: {out_r.error} ({desc})"})
+                    break
+                if out_r.error is not None:
+                    V.append({"clause": "C18.run-raised", "site": f"{out_r.error_site or '?'}@resume", "msg": f"the run resumed from the autosave written after unit of work {it['pcall']} raised {out_r.error!r} ({desc})"})
+                comb = JumpTrace()
+                comb.ev = prefix + trace_r.ev
+                comb.target_times = trace.target_times
+                tv, stats_r = check_trace(comb, 0, sweep_len, out_r.error is None)
+                for v in tv:
+                    v["site"] += "@resume"
+                    v["msg"] += f" [history = dead incarnation(s) up to the autosave + resumed incarnation; crash chain {chain}] :: {desc}"
+                V.extend(tv)
+                V.extend(_public_times(case, out_r, out_r.error is None, desc, "@resume"))
+                _stat_probes(stats_r, probes)
+                if V or out_r.error is not None or not tape.bool(0.35, "crash_again"):
+                    break
+                cur_saves, cur_trace_ev = saves_r, trace_r.ev
         return _pack(V, desc, probes, world, case, stats, stub)
     finally:
         world.close()
+
+
+def _public_times(case: dict, out: M.Outcome, finished: bool, desc: dict, suffix: str) -> list[dict]:
+    """I6 through the public results: every observable once per due time."""
+    V: list[dict] = []
+    if finished and out.results is not None:
+        from ._cal import match_times_clustered
+
+        req = CAL.requested_times(case["cfg"]["observables"], case["cfg"]["default_times"])
+        for tag, times in req.items():
+            rec = [x[0] for x in out.results["tags"].get(tag, [])]
+            m = match_times_clustered(rec, times)
+            if m is not None:
+                V.append({"clause": "C18.I6-observable-times", "site": tag + suffix, "msg": f"{tag}: {m} :: {desc}"})
+    return V
+
+
+def _stat_probes(stats: dict, probes: dict) -> None:
+    if stats["jumps"]:
+        probes["jump"] = probes.get("jump", 0) + stats["jumps"]
+    else:
+        probes["no_jump_run"] = 1
+    if stats["max_jumps_in_step"] == 2:
+        probes["two_jumps_in_one_step"] = 1
+    if stats["max_jumps_in_step"] >= 3:
+        probes["three_plus_jumps_in_one_step"] = 1
+    if stats["jump_near_boundary"]:
+        probes["jump_within_1ns_of_step_boundary"] = probes.get("jump_within_1ns_of_step_boundary", 0) + stats["jump_near_boundary"]
+    if stats["tiny_step"]:
+        probes["step_shorter_than_tolerance"] = 1
+    if stats["tie"]:
+        probes["exact_tie_norm_equals_threshold"] = probes.get("exact_tie_norm_equals_threshold", 0) + stats["tie"]
+    if stats["max_search_iters"] > 5:
+        probes["search_longer_than_5_sweeps"] = 1
 
 
 def _pack(V: list, desc: dict, probes: dict, world: World, case: dict, stats: dict | None, stub: bool) -> dict:
@@ -426,4 +534,4 @@ def run_one(tape: Tape, tier: str, opts: dict) -> dict:
             viol.append(v)
         if sample is None and d["case"][1]:
             sample = d["desc"]
-    return {"violations": viol, "cases": cases, "evals": n, "probes": probes, "digest": h.hexdigest(), "sample": sample, "sim_ns": sim_ns, "sim_wall_s": sim_wall, "faults": {"adversarial_norm_runs": n if stub else 0, "buggified_threshold_runs": probes.get("buggified_threshold", 0)}}
+    return {"violations": viol, "cases": cases, "evals": n, "probes": probes, "digest": h.hexdigest(), "sample": sample, "sim_ns": sim_ns, "sim_wall_s": sim_wall, "faults": {"adversarial_norm_runs": n if stub else 0, "buggified_threshold_runs": probes.get("buggified_threshold", 0), "crash_then_resume": probes.get("resume_during_active_search", 0) + probes.get("resume_between_searches", 0)}}
